@@ -292,8 +292,21 @@ func projectElemMatch(ctx Context, doc bsonkit.Doc, _, path string, v interface{
 		Expression: ExpressionQueryOperators,
 	}
 
+	// a query on fields (instead of operators) only applies to elements
+	// that are embedded documents or arrays
+	fieldQuery := len(query) > 0 && (len(query[0].Key) == 0 || query[0].Key[0] != '$')
+
 	// find first matching element
 	for _, item := range array {
+		// skip scalar elements for field queries
+		if fieldQuery {
+			switch item.(type) {
+			case bson.D, bson.A:
+			default:
+				continue
+			}
+		}
+
 		virtual := bson.D{
 			bson.E{Key: "item", Value: item},
 		}
